@@ -197,6 +197,103 @@ theorem implCorr_same {α} [CommSemiring α] (pad : Bool) (ns ms Ns : List Nat) 
   rw [e]
   exact rawCorr_eq_corrSpec ns ms Ns t f g hf hg hax hpos
 
+/-! ### full Fourier padding, template of any extent (also larger than the target on some axes) -/
+
+/-- one axis of the `same` frame with full Fourier padding, *all* branches of `_fourier_padding`: whatever the relation of
+template and target extent, output position `t` reads raw position `t + (m-1)/2` -/
+theorem same_axis_full (n m N : Nat) (t : Int) (hm : 0 < m) (hn : 0 < n) (hN : convLen n m true ≤ N)
+    (ht0 : 0 ≤ t) (ht1 : t < n) :
+    let u := t + (((m - 1) / 2 : Nat) : Int)
+    rawIdx N (fourierShiftFull n m true) (cropStart (convLen n m true) n) t = u ∧
+    (0 < m ∧ n ≤ N ∧ (u + N - ((n:Int) - 1) ≥ m ∨ u ≥ (n:Int) - 1) ∧ u < N ∧ 0 ≤ u) := by
+  by_cases hmn : m ≤ n
+  · have : fourierShiftFull n m true = fourierShift m true := by
+      unfold fourierShiftFull
+      have : ¬ ((n : Int) - m < 0) := by omega
+      simp [this]
+    rw [this]
+    exact same_axis true n m N t hm hmn hN ht0 ht1 (by intro h; cases h)
+  · have hlt : n < m := by omega
+    have hconv : convLen n m true = m + m - 1 := by simp [convLen, Nat.max_eq_right (le_of_lt hlt)]
+    rw [hconv] at hN ⊢
+    intro u
+    have hneg : (n : Int) - m < 0 := by omega
+    have key : (t + cropStart (m + m - 1) n - fourierShiftFull n m true) = u := by
+      unfold fourierShiftFull fourierShift cropStart
+      simp only [if_true, hneg]
+      rcases Nat.mod_two_eq_zero_or_one n with hn2 | hn2 <;> rcases Nat.mod_two_eq_zero_or_one m with hm2 | hm2
+      · have hoff : ((n : Int) - m) % 2 = 0 := by omega
+        simp only [hn2, hm2, hoff]
+        simp
+        rw [Int.tdiv_eq_ediv_of_nonneg (by omega)]
+        omega
+      · have hoff : ((n : Int) - m) % 2 = 1 := by omega
+        simp only [hn2, hm2, hoff]
+        simp
+        rw [Int.tdiv_eq_ediv_of_nonneg (by omega)]
+        omega
+      · have hoff : ((n : Int) - m) % 2 = 1 := by omega
+        simp only [hn2, hm2, hoff]
+        simp
+        rw [Int.tdiv_eq_ediv_of_nonneg (by omega)]
+        omega
+      · have hoff : ((n : Int) - m) % 2 = 0 := by omega
+        simp only [hn2, hm2, hoff]
+        simp
+        rw [Int.tdiv_eq_ediv_of_nonneg (by omega)]
+        omega
+    have hu0 : 0 ≤ u := by omega
+    have huN : u < N := by omega
+    refine ⟨?_, hm, by omega, Or.inl (by omega), huN, hu0⟩
+    unfold rawIdx
+    rw [key]
+    exact Int.emod_eq_of_lt hu0 huN
+
+
+/-- side conditions with full Fourier padding: any positive extents -/
+def SameFullOk : List Nat → List Nat → List Nat → List Int → Prop
+  | [], [], [], [] => True
+  | n :: ns, m :: ms, N :: Ns, t :: ts =>
+      (0 < m ∧ 0 < n ∧ convLen n m true ≤ N ∧ 0 ≤ t ∧ t < n) ∧ SameFullOk ns ms Ns ts
+  | _, _, _, _ => False
+
+theorem frame_same_full : ∀ (ns ms Ns : List Nat) (t : List Int), SameFullOk ns ms Ns t →
+    frameIdx Ns (shiftsOfFull true ns ms) (sameCrops true ns ms) t = rawPos ms t ∧ AxesOk ns ms Ns (rawPos ms t) ∧
+    (∀ m ∈ ms, 0 < m)
+  | [], [], [], [], _ => by simp [frameIdx, rawPos, AxesOk]
+  | n :: ns, m :: ms, N :: Ns, t :: ts, h => by
+    obtain ⟨⟨hm, hn, hN, ht0, ht1⟩, hrest⟩ := h
+    obtain ⟨e, hax⟩ := same_axis_full n m N t hm hn hN ht0 ht1
+    obtain ⟨e', hax', hpos'⟩ := frame_same_full ns ms Ns ts hrest
+    refine ⟨?_, ⟨hax, hax'⟩, ?_⟩
+    · simp only [shiftsOfFull, sameCrops, frameIdx, rawPos]
+      rw [e, e']
+    · intro x hx
+      rcases List.mem_cons.mp hx with rfl | hx
+      · exact hm
+      · exact hpos' x hx
+  | [], _ :: _, _, _, h => by cases h
+  | [], [], _ :: _, _, h => by cases h
+  | [], [], [], _ :: _, h => by cases h
+  | _ :: _, [], _, _, h => by cases h
+  | _ :: _, _ :: _, [], _, h => by cases h
+  | _ :: _, _ :: _, _ :: _, [], h => by cases h
+
+/-- **C01 with full Fourier padding, no restriction on the template's extent.**  Also when the template is larger than
+the target on some axes (the correction branch of `_fourier_padding`: halved shape difference, parity offsets, truncating
+cast), the value reported at every target voxel `t` is the windowed sum over the zero-extended target with template voxel
+`m/2` at `t`. -/
+theorem implCorr_same_full {α} [CommSemiring α] (ns ms Ns : List Nat) (t : List Int)
+    (f g : List Int → α) (hf : Supp ns f) (hg : Supp ms g) (h : SameFullOk ns ms Ns t) :
+    implCorr Ns ms (shiftsOfFull true ns ms) (sameCrops true ns ms) f g t = corrSpec ms f g t := by
+  obtain ⟨e, hax, hpos⟩ := frame_same_full ns ms Ns t h
+  unfold implCorr
+  rw [e]
+  exact rawCorr_eq_corrSpec ns ms Ns t f g hf hg hax hpos
+
+/-- non-vacuity: a 5-voxel template on a 3-voxel target, fast length 9 -/
+example : SameFullOk [3] [5] [9] [2] := by simp [SameFullOk, convLen]
+
 /-- side conditions of the `valid` frame (padded tiles): `j` indexes the cropped map -/
 def ValidOk (pad : Bool) : List Nat → List Nat → List Nat → List Int → Prop
   | [], [], [], [] => True
